@@ -92,7 +92,40 @@ def rsFinish (cx : Ctx) (t : Nat) (sc : Script) (w : World) : Status × Option C
       let data : Content := if sc.stamp = 1 then out else [sc.stamp - 2]
       let w := addKnown w t
       setRec w t (stampRec (w.recs t) cx.runid data)
+    if sc.stamp != 0 && decide (cx.crash = some (t, sc.ifchange.length + 1)) then (CRASHED, none, w) else
     ((sc.exit : Int), if sc.outMode = 2 then none else some out, w)
+
+/-- The world after the `redo-stamp` step (the same whether or not the kill point after it fires). -/
+def rsStampW (cx : Ctx) (t : Nat) (sc : Script) (w : World) : World :=
+    let out := outContent sc.tag (sc.reads.map (fun f => (w.fs f).map (·.content)))
+    if sc.stamp = 0 then w else
+      let data : Content := if sc.stamp = 1 then out else [sc.stamp - 2]
+      let w := addKnown w t
+      setRec w t (stampRec (w.recs t) cx.runid data)
+
+/-- Whether the kill point after `redo-stamp` fires. -/
+def rsKill (cx : Ctx) (t : Nat) (sc : Script) : Bool :=
+  sc.stamp != 0 && decide (cx.crash = some (t, sc.ifchange.length + 1))
+
+theorem rsFinish_world (cx : Ctx) (t : Nat) (sc : Script) (w : World) :
+    (rsFinish cx t sc w).2.2 = if rsFailNow sc w then w else rsStampW cx t sc w := by
+  unfold rsFinish rsStampW
+  split
+  · rfl
+  · dsimp only
+    split <;> rfl
+
+theorem rsFinish_eq (cx : Ctx) (t : Nat) (sc : Script) (w : World) :
+    rsFinish cx t sc w = if rsFailNow sc w then (1, none, w) else
+      if rsKill cx t sc then (CRASHED, none, rsStampW cx t sc w) else
+      ((sc.exit : Int), (if sc.outMode = 2 then none else
+        some (outContent sc.tag (sc.reads.map (fun f => (w.fs f).map (·.content))))), rsStampW cx t sc w) := rfl
+
+theorem rsKill_of_stamp0 (cx : Ctx) (t : Nat) (sc : Script) (h : sc.stamp = 0) : rsKill cx t sc = false := by
+  simp [rsKill, h]
+
+theorem rsKill_of_nocrash (cx : Ctx) (t : Nat) (sc : Script) (h : cx.crash = none) : rsKill cx t sc = false := by
+  simp [rsKill, h]
 
 /-- The declarations and nested commands, then the end. -/
 def rsBody (E : Engine) (cx : Ctx) (t : Nat) (sc : Script) (w : World) : Status × Option Content × World :=
@@ -131,10 +164,11 @@ theorem rsAlways_keepsUser (cx : Ctx) (t : Nat) (sc : Script) (w : World) : Keep
 
 theorem rsFinish_keepsEx (cx : Ctx) (t : Nat) (sc : Script) (w : World) :
     KeepsUserEx t w (rsFinish cx t sc w).2.2 := by
-  unfold rsFinish
+  rw [rsFinish_world]
   split
   · exact KeepsUserEx.refl t w
-  · dsimp only
+  · unfold rsStampW
+    dsimp only
     split
     · exact KeepsUserEx.refl t w
     · exact ((SameOwn.addKnown w t).keeps.ex t).trans (KeepsUserEx.setRec _ t _)
@@ -347,7 +381,7 @@ theorem buildJob_keepsUser (E : Engine) (hE : EngineKeeps E) (d : Defects) (cx :
       dsimp only
       split
       · exact hs.keeps.trans hst
-      · have h1 := hE { cx with noOob := true, unlocked := false, isRedo := false,
+      · have h1 := hE { cx with noOob := true, unlocked := false, isRedo := false, cycles := t :: cx.cycles,
                                 parent := if d.oobRecordsDepsOnCaller then cx.parent else none }
           (if w1.oobRev then ts.eraseDups.reverse else ts.eraseDups) w1
         generalize E.ifchangeCmd _ (if w1.oobRev then ts.eraseDups.reverse else ts.eraseDups) w1 = r1 at h1
